@@ -15,6 +15,7 @@ LEVEL_TEXT = (
     "finite, strictly positive float; the tolerance-aware helper must equal an independently written two-stage procedure (Euler probe, both "
     "guards, exponent 1/(rate+1), final minimum; overflow-safe norms) to 1e-9; for moderate magnitudes the returned step must let "
     "solve_adaptive_terminal_values start and finish with finite output."
+    " Field kinds include slow dynamics (derivatives between the heuristic's thresholds 1e-15 and 1e-5)."
 )
 LEVEL_NOTE = (
     "Norm convention: the statement does not fix the norm of the classical heuristic; the reference uses the code base's documented "
